@@ -96,16 +96,18 @@ type appClient interface {
 }
 
 type c42Run struct {
-	HandshakeOK bool
-	CliErr      error
-	SrvHsErr    error
-	Records     [][]byte // post-handshake client records as produced by the client
-	HsRecords   [][]byte // the client's handshake-phase records (ClientHello .. Finished)
-	Delivered   []byte   // the stream given to the server after the handshake
-	Got         []byte   // application bytes the server's Read returned
-	ReadErr     error    // the error that ended the server's Read loop
-	Hung        bool
-	Panic       *panicBox
+	HandshakeOK  bool
+	CliErr       error
+	SrvHsErr     error
+	Records      [][]byte // post-handshake client records as produced by the client
+	HsRecords    [][]byte // the client's handshake-phase records (ClientHello .. Finished)
+	Delivered    []byte   // the stream given to the server after the handshake
+	Got          []byte   // application bytes the server's Read returned
+	ReadErr      error    // the error that ended the server's Read loop
+	PostErrBytes int      // bytes returned by the three Reads issued after that error
+	PostErrOK    int      // how many of those Reads returned data or a nil error
+	Hung         bool
+	Panic        *panicBox
 }
 
 func c42Server(cb c42Combo) *bfe_tls.Config {
@@ -213,6 +215,7 @@ func c42Exchange(cb c42Combo, plain [][]byte, hsOps []tamperOp, transform func(r
 	}()
 	var cliErr, srvHsErr, readErr error
 	var got []byte
+	var postErrBytes, postErrOK int
 	go func() {
 		defer wg.Done()
 		defer cEnd.Close()
@@ -240,6 +243,16 @@ func c42Exchange(cb c42Combo, plain [][]byte, hsOps []tamperOp, transform func(r
 			got = append(got, buf[:n]...)
 			if err != nil {
 				readErr = err
+				// an application that keeps reading after the error must not be handed
+				// anything either: three more reads, whatever they return
+				for k := 0; k < 3; k++ {
+					n2, err2 := srv.Read(buf)
+					if n2 > 0 || err2 == nil {
+						postErrBytes += n2
+						postErrOK++
+						got = append(got, buf[:n2]...)
+					}
+				}
 				return
 			}
 		}
@@ -249,6 +262,7 @@ func c42Exchange(cb c42Combo, plain [][]byte, hsOps []tamperOp, transform func(r
 	out.CliErr, out.SrvHsErr, out.ReadErr = cliErr, srvHsErr, readErr
 	out.HandshakeOK = cliErr == nil && srvHsErr == nil
 	out.Records, out.Delivered, out.Got = recs, delivered, got
+	out.PostErrBytes, out.PostErrOK = postErrBytes, postErrOK
 	out.HsRecords = hsRecs
 	return out
 }
@@ -515,6 +529,10 @@ func c42Check(r *vkit.Run, c *c42Case, donors *c42Donors, g *vkit.Rand) {
 	if c.Multi {
 		kind = "multi"
 	}
+	if run.PostErrOK > 0 {
+		r.Violation("tamper:"+kind+":read-after-error-returns-data:"+cipherClass(c.Suite), fmt.Sprintf("after Read failed with %v, %d of 3 further Reads returned data or a nil error (%d bytes)", run.ReadErr, run.PostErrOK, run.PostErrBytes), wit)
+	}
+	r.Count("reads_after_error_checked", 3)
 	isPrefix := len(run.Got) <= len(all) && bytes.Equal(all[:len(run.Got)], run.Got)
 	if !isPrefix {
 		r.Violation("tamper:"+kind+":server-got-non-prefix:"+cipherClass(c.Suite), fmt.Sprintf("server application received %d bytes that are not a prefix of the %d bytes the client sent", len(run.Got), len(all)), wit)
@@ -580,7 +598,7 @@ func c42HsCheck(r *vkit.Run, c *c42Case) {
 }
 
 func c42(r *vkit.Run) {
-	r.SetRule("every (client, certificate, version TLS1.0-1.2, suite) combination bfe_tls enables (37 with Go's crypto/tls client, RSA-SM4-SM3 x3 with bfe's own client as traffic generator; SSLv3 excluded: no standard client) x 28 tamper kinds (bit flips in type/version/length/first/middle/last body byte, cuts inside body/header/at boundary, duplicate, later replay, swap, drop, length edits, cross-connection insert/replace, forged and empty record) x 3 positions (first, middle, last post-handshake record incl. close_notify), plus one untampered control per combination, plus handshake-phase tampering (bit flip in the body of each of the client's ClientHello/ClientKeyExchange/ChangeCipherSpec/Finished records, drop, duplicate, swap: the server handshake must fail or its first Read must return an error with no data; record headers of clear-text handshake records and the 4-byte handshake message header are left alone, TLS does not authenticate the former and a larger length in the latter only stalls); thorough adds seeded sequences of 2-3 ops and single-bit flips at random offsets. Oracle: server bytes are a prefix of the client's plaintext and the Read loop ends with a non-nil error other than io.EOF. Ops whose effect lies wholly after the close_notify record are not counted. Non-trivial = delivered stream differs from the original; distinct = (combination, chunking, op list)")
+	r.SetRule("every (client, certificate, version TLS1.0-1.2, suite) combination bfe_tls enables (37 with Go's crypto/tls client, RSA-SM4-SM3 x3 with bfe's own client as traffic generator; SSLv3 excluded: no standard client) x 28 tamper kinds (bit flips in type/version/length/first/middle/last body byte, cuts inside body/header/at boundary, duplicate, later replay, swap, drop, length edits, cross-connection insert/replace, forged and empty record) x 3 positions (first, middle, last post-handshake record incl. close_notify), plus one untampered control per combination, plus handshake-phase tampering (bit flip in the body of each of the client's ClientHello/ClientKeyExchange/ChangeCipherSpec/Finished records, drop, duplicate, swap: the server handshake must fail or its first Read must return an error with no data; record headers of clear-text handshake records and the 4-byte handshake message header are left alone, TLS does not authenticate the former and a larger length in the latter only stalls); thorough adds seeded sequences of 2-3 ops and single-bit flips at random offsets. Oracle: server bytes are a prefix of the client's plaintext and the Read loop ends with a non-nil error other than io.EOF; three further Reads issued after that error must return no data and an error. Ops whose effect lies wholly after the close_notify record are not counted. Non-trivial = delivered stream differs from the original; distinct = (combination, chunking, op list)")
 	getPKI()
 	donors := &c42Donors{m: map[c42Combo][][]byte{}}
 	if r.Replay != "" {
